@@ -182,7 +182,7 @@ def build_op(k, kind, H, sd, names):
 # ---- presentation of inputs: variables whose dynamics are the identity can be handed to the library as FREE INPUTS
 # (no update function at all: the rule line is dropped from the bnet text; AEON then creates an implicit parameter
 # without regulators, which biobalm accepts and reads as "never changes")
-PRESENT = {"free": ()}
+PRESENT = {"free": (), "order": None}
 
 
 def declare_free(net):
@@ -198,6 +198,7 @@ def declare_free(net):
 
 def set_presentation(H, names, params):
     PRESENT["free"] = ()
+    PRESENT["order"] = params.get("decl_order")
     if params.get("free_inputs"):
         PRESENT["free"] = tuple(nm for i, nm in enumerate(names) if H.free(i))
 
@@ -218,9 +219,32 @@ def present(rules):
     return "\n".join(out) + "\n"
 
 
+def reordered_network(text, order):
+    """the same network as a BooleanNetwork OBJECT whose variables are declared in another order (the text loaders
+    always sort the names; a network built through the API need not be sorted)"""
+    import biodivine_aeon as ba
+    from engine import oracles
+    BN = oracles.REAL.get("BooleanNetwork", ba.BooleanNetwork)
+    src = BN.from_bnet(text)
+    names = list(src.variable_names())
+    names = names[::-1] if order == "reversed" else names[1:] + names[:1]
+    bn = BN(names)
+    for r in src.regulations():
+        bn.add_regulation({"source": src.get_variable_name(r["source"]), "target": src.get_variable_name(r["target"]),
+                           "essential": r.get("essential", True), "sign": r.get("sign")})
+    for nm in names:
+        f = src.get_update_function(nm)
+        if f is not None:
+            bn.set_update_function(nm, str(f))
+    return oracles.wrap_network(bn) if hasattr(oracles, "wrap_network") else bn
+
+
 def from_rules(rules, config=None):
     from biobalm import SuccessionDiagram
     text = present(rules)
+    if PRESENT.get("order"):
+        bn = reordered_network(text, PRESENT["order"])
+        return SuccessionDiagram(bn) if config is None else SuccessionDiagram(bn, config)
     return SuccessionDiagram.from_rules(text) if config is None else SuccessionDiagram.from_rules(text, config=config)
 
 
